@@ -735,6 +735,9 @@ func taintWalk(v ssa.Value, cfg taintCfg) (bool, string) {
 			if cfg.sanitizer != nil && cfg.sanitizer(n) {
 				return false
 			}
+			if n == "util.StringFromBytes" && reallocatedExclusive(x) {
+				return false // the string is the only owner of an array append has just allocated: as good as a copy
+			}
 			if cfg.identity != nil && cfg.identity(n) {
 				for _, a := range x.Common().Args {
 					if walk(a, d+1) {
@@ -1070,7 +1073,7 @@ func ruleC12R4(c *Ctx) {
 		for _, rv := range returnedValues(fn, 0) {
 			if mentions(rv.Val, func(v ssa.Value) bool {
 				cl, isC := v.(*ssa.Call)
-				return isC && cl.Common().StaticCallee() != nil && isAnchor(cl.Common().StaticCallee(), "util.StringFromBytes")
+				return isC && cl.Common().StaticCallee() != nil && isAnchor(cl.Common().StaticCallee(), "util.StringFromBytes") && !reallocatedExclusive(cl)
 			}) {
 				ok = false
 			}
@@ -1847,4 +1850,145 @@ func ruleC15R8(c *Ctx) {
 		}
 		c.check(okArg, "C15.R8", fn, "the pattern is applied to the key field's value", s.Pos(), "pattern.Find…(keyLocator.Get(fields))", "the pattern is not applied to the value of the configured key field as it is")
 	}
+}
+
+// reallocatedExclusive: call is util.StringFromBytes(v) where v is the result of an append chain begun on some base buffer,
+// the call is only reached through the edge "cap(v) > cap(base)" — append has moved the bytes into a new array — and nothing
+// else of v's chain leaves the function (no other result derives from it, it is not stored, sent or captured): the string is
+// the new array's only owner, which is as good as a copy. With "return StringFromBytes(buf), buf[:0]" the second result
+// hands the same array out for reuse and the call stays an alias of a reusable buffer.
+func reallocatedExclusive(call *ssa.Call) bool {
+	if len(call.Common().Args) != 1 {
+		return false
+	}
+	fn := call.Parent()
+	chain := map[ssa.Value]bool{}
+	roots := map[ssa.Value]bool{}
+	var walk func(v ssa.Value, d int)
+	walk = func(v ssa.Value, d int) {
+		v = strip(v)
+		if d > 12 || chain[v] || roots[v] {
+			return
+		}
+		switch x := v.(type) {
+		case *ssa.Phi:
+			chain[v] = true
+			for _, e := range x.Edges {
+				walk(e, d+1)
+			}
+		case *ssa.Call:
+			if isBuiltin(x, "append") {
+				chain[v] = true
+				walk(x.Call.Args[0], d+1)
+				return
+			}
+			roots[v] = true
+		case *ssa.Slice:
+			inner := strip(x.X)
+			walk(inner, d+1)
+			if chain[inner] {
+				chain[v] = true
+			} else {
+				roots[v] = true
+			}
+		default:
+			roots[v] = true
+		}
+	}
+	arg := strip(call.Common().Args[0])
+	walk(arg, 0)
+	if !chain[arg] {
+		return false
+	}
+	isCapOf := func(v ssa.Value, set map[ssa.Value]bool) bool {
+		cl, ok := strip(v).(*ssa.Call)
+		return ok && isBuiltin(cl, "cap") && set[strip(cl.Call.Args[0])]
+	}
+	// dominated by the "capacity grew" edge
+	grown := false
+	for b := call.Block(); b != nil; b = b.Idom() {
+		d := b.Idom()
+		if d == nil {
+			break
+		}
+		iff, ok := d.Instrs[len(d.Instrs)-1].(*ssa.If)
+		if !ok || len(d.Succs) != 2 {
+			continue
+		}
+		bo, ok := iff.Cond.(*ssa.BinOp)
+		if !ok {
+			continue
+		}
+		viaTrue := d.Succs[0] == b && len(b.Preds) == 1
+		viaFalse := d.Succs[1] == b && len(b.Preds) == 1
+		switch {
+		case bo.Op == token.GTR && isCapOf(bo.X, chain) && isCapOf(bo.Y, roots) && viaTrue,
+			bo.Op == token.LSS && isCapOf(bo.Y, chain) && isCapOf(bo.X, roots) && viaTrue,
+			bo.Op == token.NEQ && (isCapOf(bo.X, chain) && isCapOf(bo.Y, roots) || isCapOf(bo.Y, chain) && isCapOf(bo.X, roots)) && viaTrue,
+			bo.Op == token.LEQ && isCapOf(bo.X, chain) && isCapOf(bo.Y, roots) && viaFalse,
+			bo.Op == token.EQL && (isCapOf(bo.X, chain) && isCapOf(bo.Y, roots) || isCapOf(bo.Y, chain) && isCapOf(bo.X, roots)) && viaFalse:
+			grown = true
+		}
+	}
+	if !grown {
+		return false
+	}
+	// nothing else of the chain leaves the function
+	inChain := func(v ssa.Value) bool {
+		return v != nil && mentions(v, func(y ssa.Value) bool { return chain[y] && y != ssa.Value(call) })
+	}
+	escapes := false
+	// only what lies on a common path with the call counts: the sibling branch (capacity did not grow) deals with the old array
+	reach := func(from *ssa.BasicBlock) map[*ssa.BasicBlock]bool {
+		seen := map[*ssa.BasicBlock]bool{}
+		var w func(b *ssa.BasicBlock)
+		w = func(b *ssa.BasicBlock) {
+			if seen[b] {
+				return
+			}
+			seen[b] = true
+			for _, sc := range b.Succs {
+				w(sc)
+			}
+		}
+		w(from)
+		return seen
+	}
+	after := reach(call.Block())
+	onPath := func(b *ssa.BasicBlock) bool { return after[b] || reach(b)[call.Block()] }
+	eachInstr(fn, func(in ssa.Instruction) {
+		if !onPath(in.Block()) {
+			return
+		}
+		switch x := in.(type) {
+		case *ssa.Return:
+			for _, r := range x.Results {
+				if strip(r) == ssa.Value(call) || mentions(r, func(y ssa.Value) bool { return y == ssa.Value(call) }) {
+					continue
+				}
+				if inChain(r) {
+					escapes = true
+				}
+			}
+		case *ssa.Store:
+			if inChain(x.Val) {
+				escapes = true
+			}
+		case *ssa.MapUpdate:
+			if inChain(x.Value) || inChain(x.Key) {
+				escapes = true
+			}
+		case *ssa.Send:
+			if inChain(x.X) {
+				escapes = true
+			}
+		case *ssa.MakeClosure:
+			for _, bnd := range x.Bindings {
+				if inChain(bnd) {
+					escapes = true
+				}
+			}
+		}
+	})
+	return !escapes
 }
